@@ -158,7 +158,7 @@ func runC06(c *Check) {
 					}
 					isPut := strings.Contains(n, ").Put") || strings.Contains(n, ").Append")
 					if isPut == put && strings.HasSuffix(n, "int64") {
-						out[n[len("(encoding/binary.") : strings.Index(n, ")")]] = true
+						out[n[len("(encoding/binary."):strings.Index(n, ")")]] = true
 					}
 				}
 				for _, cal := range staticCalleesOf(p, fn) {
@@ -166,7 +166,7 @@ func runC06(c *Check) {
 						if strings.HasPrefix(n, "(encoding/binary.") && strings.HasSuffix(n, "int64") {
 							isPut := strings.Contains(n, ").Put") || strings.Contains(n, ").Append")
 							if isPut == put {
-								out[n[len("(encoding/binary.") : strings.Index(n, ")")]] = true
+								out[n[len("(encoding/binary."):strings.Index(n, ")")]] = true
 							}
 						}
 					}
